@@ -21,7 +21,7 @@ PANIC_MACROS = {"unimplemented", "todo"}
 def rule_unimpl(facts, cg):
     r = RuleResult("C15-UNIMPL", "no unimplemented!/todo! in any function reachable from the engine entry points", floor=5)
     live = cg.live(facts)
-    for rec in facts.all_fns(CRATES):
+    for rec in facts.all_fns(CRATES, contains=tuple(PANIC_MACROS)):
         sites = []
         for bi, blk in enumerate(rec["bbs"]):
             t = blk["t"]
@@ -282,7 +282,7 @@ def rule_enumidx(facts):
     from .mir import Fn
     r = RuleResult("C15-ENUMIDX", "in binder/planner/resolver code, indexing a collection with the enumerate() position of another collection is dominated by a "
                    "comparison of two lengths", floor=1)
-    for rec in facts.all_fns(["glaredb_core"]):
+    for rec in facts.all_fns(["glaredb_core"], contains="Enumerate"):
         if not any(m in rec["id"] for m in ("::logical::binder::", "::logical::planner::", "::logical::resolver::")) or "::tests::" in rec["id"]:
             continue
         if "Enumerate" not in str(rec["bbs"]):
